@@ -49,6 +49,7 @@ fn main() {
             std::process::exit(2);
         }
         // replay does not rewrite the evidence file
+        props::c17::cleanup();
         let code = ctx.finish_replay(path);
         std::process::exit(code);
     }
